@@ -100,6 +100,8 @@ class Pool:
             x = big[..., ::2]
         elif layout == "fortran" and x.ndim >= 2:
             x = np.asfortranarray(x)
+        elif layout == "readonly":
+            x.flags.writeable = False  # e.g. a memory-mapped file opened for reading: nothing may need to write into it
         z = G.build(spec, data=x)
         check(z.data is x or z.data.dtype != x.dtype or True, "harness")
         self.sigs.append((z, snap_signal(z), "created(%s)" % layout))
@@ -147,6 +149,8 @@ class Pool:
             raise
         except Exception as e:
             # whether the call succeeds or raises, nothing may change (verified by the caller)
+            if "read-only" in str(e):
+                raise Violation("%s(%s) tried to write into its read-only input: %s" % (name, args, str(e)[:120]))
             self.st.label("raised_" + name)
             return
         self.add(r, name)
@@ -260,14 +264,14 @@ class PoolMachine(HistoryMachine):
 
     @initialize(spec=G.signal_spec(nmin=2, nmax=24, nchan_max=4, max_trailing=1, dtypes=["f4", "f8", "c8", "c16"], positive_band=True,
                                    data_kinds=("noise",), sr=G.freq_q(0, 8), ratio_lo=1e-6),
-                layout=st.sampled_from(["contiguous", "strided_time", "strided_last", "fortran"]))
+                layout=st.sampled_from(["contiguous", "strided_time", "strided_last", "fortran", "readonly"]))
     def first(self, spec, layout):
         self.do(["new", spec, layout])
 
     @precondition(lambda self: len(self.model.sigs) < 4)
     @rule(spec=G.signal_spec(nmin=1, nmax=16, nchan_max=3, max_trailing=1, dtypes=["f4", "f8", "c8", "c16"], positive_band=True, data_kinds=("noise",),
                              sr=G.freq_q(0, 8), ratio_lo=1e-6),
-          layout=st.sampled_from(["contiguous", "strided_time", "strided_last"]))
+          layout=st.sampled_from(["contiguous", "strided_time", "strided_last", "readonly"]))
     def new(self, spec, layout):
         self.do(["new", spec, layout])
 
